@@ -28,15 +28,29 @@ variable {F : Type} (fin : F → Bool)
 finite coordinates, with the document `docOf g`; otherwise `unsupported` resp. `nonFinite`. -/
 theorem C06_encode_total (g : Geom F) :
     toTree fin g = if supported g then (if allFinite fin g then .ok (docOf g) else .error .nonFinite)
-                   else .error .unsupported := toTree_eq fin g
+                   else if isNil g then .error .panicNil else .error .unsupported := toTree_eq fin g
 
-/-- **C06_errors** ("Unsupported types and non-finite coordinates are reported as errors by Encode"). -/
+/-- **C06_errors** ("Unsupported types and non-finite coordinates are reported as errors by Encode"): every value
+of another geometry TYPE (GeometryCollection, *Bounds) is `UnsupportedGeometryError`; a non-finite coordinate is
+json's `UnsupportedValueError`.  The nil interface value has no type: `Encode(nil)` panics (`C06_nil`). -/
 theorem C06_errors (g : Geom F) :
-    (supported g = false → toTree fin g = .error .unsupported) ∧
+    (supported g = false → isNil g = false → toTree fin g = .error .unsupported) ∧
     (supported g = true → allFinite fin g = false → toTree fin g = .error .nonFinite) := by
   constructor
-  · intro h; simp [toTree_eq, h]
+  · intro h h'; simp [toTree_eq, h, h']
   · intro h1 h2; simp [toTree_eq, h1, h2]
+
+/-- **C06_nil** (outside the property, stated so that the model hides nothing): `ToGeoJSON`/`Encode` of the nil
+interface value is a runtime panic that escapes (`reflect.TypeOf(nil).String()`), not an error value;
+`FromGeoJSON(nil)` is a recovered runtime error returned as `error`; `Decode` of the document `null` leaves the
+zero `Geometry` and so answers `UnsupportedGeometryError` (empty type name). -/
+theorem C06_nil :
+    toTree fin (Geom.nil : Geom F) = .error .panicNil ∧
+    toGeoJSON (Geom.nil : Geom F) = .error .panicNil ∧
+    fromGeoJSONPtr (none : Option (String × Tree F)) = .error .nilDeref ∧
+    fromTree (Tree.null : Tree F) = .error .unsupported := by
+  refine ⟨rfl, rfl, rfl, ?_⟩
+  simp [fromTree, unmarshal, fromGeoJSON, bind, Except.bind]
 
 /-- **C06_shape** ("the JSON text is an RFC 7946 geometry object whose coordinates array nests exactly as
 the type requires, in [x, y] order"): every document the encoder returns is read back to `g` by the
@@ -60,6 +74,7 @@ theorem C06_shape (g : Geom F) (t : Tree F) (h : toTree fin g = .ok t) : Rfc.rea
       | nil => simp [supported] at hs
     · simp [hs, hf] at h
   · simp [hs] at h
+    split at h <;> simp at h
 
 /-- decoding the encoder's own document, in closed form: error exactly when the first member is empty -/
 theorem fromTree_docOf (g : Geom F) (hs : supported g = true) :
@@ -206,5 +221,8 @@ example : ∃ t, toTree (fun _ : Int => true) (.polygon [[], [⟨0, 1⟩]]) = .o
 
 example : toTree (fun x : Int => x != 7) (.lineString [⟨0, 1⟩, ⟨7, 3⟩]) = .error .nonFinite :=
   (C06_errors _ _).2 rfl rfl
+
+example : toTree (fun _ : Int => true) (.collection [.point ⟨0, 1⟩]) = .error .unsupported :=
+  (C06_errors _ _).1 rfl rfl
 
 end GeomV.C06
